@@ -132,16 +132,16 @@ def via_csv(q, T, B):
 '''
 
 
-def _adapter_obl(qname, a_rows, b_rows, timeout, which='via_table_adapters', csv=('\t', 'simple')):
+def _adapter_obl(qname, a_rows, b_rows, timeout, which='via_table_adapters', csv=('\t', 'simple'), slen=2):
     query = QUERIES[qname]
-    pa, pb, po, texpr = qh.table_params('a', a_rows)
+    pa, pb, po, texpr = qh.table_params('a', a_rows, slen)
     params, pre = list(pa), list(pb)
     bexpr = 'None'
     if b_rows is not None:
         p2, pb2, po2, bexpr = qh.table_params('b', b_rows)
         params += p2
         pre += pb2
-    pre += ['%s != 10 and %s != 13' % (n, n) for n, _t in params]
+    pre += ['%s != 10 and %s != 13' % (n, n) for n, t_ in params if t_ == 'int'] + ['chr(10) not in %s and chr(13) not in %s' % (n, n) for n, t_ in params if t_ == 'str']
     if which == 'via_csv' and csv[1] == 'simple':
         pre += ['%s != 9' % n for n, _t in params]
     body = indent('''
@@ -305,6 +305,10 @@ def obligations(tier, seed):
             if not quick:
                 obs.append(_adapter_obl(qn, ['cc', 'cc', 'cz'], ['cc', 'cc'] if jn else None, t, which))
         obs.append(_adapter_obl(qn, ['cz'] if jn else ['cc'], ['cz'] if jn else None, t, 'via_csv', (',', 'quoted')))
+        if 'a2' not in QUERIES[qn] and not jn and qn != 'except':
+            # one-column tables whose cells may be EMPTY strings (an empty cell is written as a blank line and must come back as a record);
+            # `* except a1` is left out: it yields zero-field records, which no CSV dialect can represent
+            obs.append(_adapter_obl(qn, ['s', 's'], None, t, 'via_csv', (',', 'quoted'), slen=1))
         if not quick:
             obs.append(_adapter_obl(qn, ['cc', 'cz'], ['cz'] if jn else None, t, 'via_csv', (',', 'quoted_rfc')))
     for an in ARGVS:
